@@ -340,3 +340,143 @@ def ob_struct_pattern_diag_order(r, tier, seed):
 
 def obligations_c13():
     return [Ob('O13.5-struct-pattern-diagnostics', 'diagnostics of a struct pattern with unknown fields independent of hash iteration order', ob_struct_pattern_diag_order, ('quick', 'thorough'), 3, {})]
+
+# ----------------------------------------------------------------------------- O3.6 checking a tuple literal against a tuple type: arity and element types
+def ob_tuple_check(r, tier, seed):
+    W = e2.fresh_world(CRATES); tt = W.tt
+    TY = tt.find_adt(['tast', 'Ty'], 'compiler'); TE = tt.find_adt(['tast', 'Expr'], 'compiler'); TYPER = tt.find_adt(['typer', 'Typer'], 'compiler')
+    HE = [a for a in tt.by_name['Expr'] if a.crate == 'compiler' and 'hir' in '::'.join(a.path)][0]; DI = tt.find_adt(['diagnostics', 'Diagnostics'], 'diagnostics')
+    r.bounds = 'a tuple literal of 1..3 items (each `1` or `true`) checked against a tuple type of 1..3 elements (each int32 or bool): every combination'
+    r.assumptions = ['HirTable::expr returns the chosen expressions; result recording stubbed; then the real Typer::check_expr, Typer::solve and Typer::subst run',
+                     'oracle: accepted (no diagnostic) iff the literal has as many items as the type has elements and every item has the element type; the elaborated tuple keeps every written item']
+    from props import c03 as c03m
+    c3 = c03m.Ctx(W); cur = {}
+    def ov(f, g):
+        if 'TypeckResultsBuilder' in g and 'record_' in g:
+            def m_record(ex, f_, a): return UNIT
+            return m_record
+        return None
+    W.overrides = [ov, c03m.ena_overrides(c3)]
+    for meth in ('record_expr_result', 'record_expr_ty', 'record_pat_ty', 'record_local_ty'):
+        for nm in list(W.methods.get(meth, [])): W.stubs[nm[1]] = lambda ex, a: UNIT
+    def stub_expr(ex, a):
+        eid = a[1]
+        while isinstance(eid, Agg): eid = eid.fields[-1]
+        return Ref(cur['exprs'], eid)
+    for nm in list(W.methods.get('expr', [])):
+        if nm[2] is not None and nm[2].self_key == 'HirTable': W.stubs[nm[1]] = stub_expr
+    eid = lambda i: Agg('ExprId', 0, [i])
+    def entry(ex):
+        n = ex.choose([(True, k) for k in (1, 2, 3)]); m_ = ex.choose([(True, k) for k in (1, 2, 3)])
+        items = [ex.choose([(True, 'int'), (True, 'bool')]) for _ in range(n)]; elems = [ex.choose([(True, 'TInt32'), (True, 'TBool')]) for _ in range(m_)]
+        exprs = {0: Agg(HE.key, HE.vindex('ETuple'), [PyVec([eid(i + 1) for i in range(n)])])}
+        for i, k in enumerate(items): exprs[i + 1] = Agg(HE.key, HE.vindex('EInt'), [mkstr('1')]) if k == 'int' else Agg(HE.key, HE.vindex('EBool'), [True])
+        cur['exprs'] = exprs
+        typer = Agg(TYPER.key, 0, [{'uni': c03m.UTable(), 'constraints': PyVec([]), 'hir_table': Opaque('hir_table'), 'results': Opaque('results')}[f[0]] for f in TYPER.variants[0].fields])
+        expected = Agg(TY.key, TY.vindex('TTuple'), [PyVec([Agg(TY.key, TY.vindex(t), []) for t in elems])])
+        h = {0: typer, 1: Opaque('genv'), 2: Opaque('local_env'), 3: Agg(DI.key, 0, [PyVec([])]), 4: expected}
+        out = ex.call('Typer::check_expr', [Ref(h, 0), Ref(h, 1), Ref(h, 2), Ref(h, 3), eid(0), Ref(h, 4)])
+        ex.call('Typer::solve', [Ref(h, 0), Ref(h, 1), Ref(h, 3)])
+        out2 = ex.call('Typer::subst', [Ref(h, 0), Ref(h, 3), out])
+        kept = len(dict(zip([x[0] for x in TE.variants[out2.idx].fields], out2.fields))['items'].items) if TE.variants[out2.idx].name == 'ETuple' else -1
+        return items, elems, len(h[3].fields[0].items), kept
+    res = e2.explore(r, W, entry, [])
+    for p in res:
+        r.cases += 1
+        if p.kind != 'ok':
+            if not any(f.key == 'panic' for f in r.findings): r.findings.append(Finding('panic', 'tuple checking panics: %s' % p.value, {}, False, 'not replayed'))
+            continue
+        items, elems, nd, kept = p.value
+        want_ok = len(items) == len(elems) and all((k == 'int') == (t == 'TInt32') for k, t in zip(items, elems))
+        r.nontrivial += 1
+        if (nd == 0) != want_ok or (nd == 0 and kept != len(items)):
+            if any(f.key.startswith('tuple-literal') for f in r.findings): continue
+            lit = '(%s%s)' % (', '.join('1' if k == 'int' else 'true' for k in items), ',' if len(items) == 1 else ''); ty = '(%s%s)' % (', '.join(goml_ty(t) for t in elems), ',' if len(elems) == 1 else '')
+            src = 'fn main() -> unit { let t: %s = %s; () }\n' % (ty, lit)
+            d = tempfile.mkdtemp(prefix='vf-c03-')
+            try:
+                open(os.path.join(d, 'main.gom'), 'w').write(src)
+                pr = subprocess.run([build.compiler_bin(), 'run', '--dump-tast', os.path.join(d, 'main.gom')], capture_output=True, text=True, timeout=60)
+            finally: shutil.rmtree(d, ignore_errors=True)
+            txt = pr.stdout + pr.stderr; rejected = 'error (' in txt or 'error:' in txt
+            key = 'tuple-literal-ill-typed-accepted' if not want_ok else 'tuple-literal-well-typed-rejected'
+            r.findings.append(Finding(key, 'the tuple literal %s checked against %s: %d diagnostics, %d of %d items kept' % (lit, ty, nd, kept, len(items)), {'literal': lit, 'type': ty}, rejected == want_ok, 'goml `%s`: %s' % (src.strip(), 'rejected: ' + txt[:120] if rejected else 'accepted')))
+    r.samples = []
+
+_obs35 = obligations
+def obligations():
+    return _obs35() + [Ob('O3.6-tuple-literal-check', 'a tuple literal is accepted against a tuple type iff arity and element types agree', ob_tuple_check, ('quick', 'thorough'), 5, {})]
+
+# ----------------------------------------------------------------------------- O3.7 / O4.7 array literals: checked against an array type without panicking, accepted iff length and element types agree
+def ob_array_check(r, tier, seed):
+    W = e2.fresh_world(CRATES); tt = W.tt
+    TY = tt.find_adt(['tast', 'Ty'], 'compiler'); TYPER = tt.find_adt(['typer', 'Typer'], 'compiler')
+    HE = [a for a in tt.by_name['Expr'] if a.crate == 'compiler' and 'hir' in '::'.join(a.path)][0]; DI = tt.find_adt(['diagnostics', 'Diagnostics'], 'diagnostics')
+    r.bounds = 'an array literal of 0..2 items (each `1` or `true`) checked against an array type of length 0..2 with element type int32 or bool: every combination'
+    r.assumptions = ['as O3.6', 'oracle: no panic; accepted iff the literal has exactly the declared length and every item has the element type']
+    from props import c03 as c03m
+    c3 = c03m.Ctx(W); cur = {}
+    def ov(f, g):
+        if 'TypeckResultsBuilder' in g and 'record_' in g:
+            def m_record(ex, f_, a): return UNIT
+            return m_record
+        return None
+    W.overrides = [ov, c03m.ena_overrides(c3)]
+    for meth in ('record_expr_result', 'record_expr_ty', 'record_pat_ty', 'record_local_ty'):
+        for nm in list(W.methods.get(meth, [])): W.stubs[nm[1]] = lambda ex, a: UNIT
+    def stub_expr(ex, a):
+        eid = a[1]
+        while isinstance(eid, Agg): eid = eid.fields[-1]
+        return Ref(cur['exprs'], eid)
+    for nm in list(W.methods.get('expr', [])):
+        if nm[2] is not None and nm[2].self_key == 'HirTable': W.stubs[nm[1]] = stub_expr
+    eid = lambda i: Agg('ExprId', 0, [i])
+    def entry(ex):
+        n = ex.choose([(True, k) for k in (0, 1, 2)]); m_ = ex.choose([(True, k) for k in (0, 1, 2)])
+        items = [ex.choose([(True, 'int'), (True, 'bool')]) for _ in range(n)]; elem = ex.choose([(True, 'TInt32'), (True, 'TBool')])
+        ex.notes['case'] = (n, m_, items, elem)
+        exprs = {0: Agg(HE.key, HE.vindex('EArray'), [PyVec([eid(i + 1) for i in range(n)])])}
+        for i, k in enumerate(items): exprs[i + 1] = Agg(HE.key, HE.vindex('EInt'), [mkstr('1')]) if k == 'int' else Agg(HE.key, HE.vindex('EBool'), [True])
+        cur['exprs'] = exprs
+        typer = Agg(TYPER.key, 0, [{'uni': c03m.UTable(), 'constraints': PyVec([]), 'hir_table': Opaque('hir_table'), 'results': Opaque('results')}[f[0]] for f in TYPER.variants[0].fields])
+        expected = Agg(TY.key, TY.vindex('TArray'), [m_, mkbox(Agg(TY.key, TY.vindex(elem), []))])
+        h = {0: typer, 1: Opaque('genv'), 2: Opaque('local_env'), 3: Agg(DI.key, 0, [PyVec([])]), 4: expected}
+        out = ex.call('Typer::check_expr', [Ref(h, 0), Ref(h, 1), Ref(h, 2), Ref(h, 3), eid(0), Ref(h, 4)])
+        ex.call('Typer::solve', [Ref(h, 0), Ref(h, 1), Ref(h, 3)])
+        ex.call('Typer::subst', [Ref(h, 0), Ref(h, 3), out])
+        return items, m_, elem, len(h[3].fields[0].items)
+    res = e2.explore(r, W, entry, [])
+    def replay(items, m_, elem):
+        lit = '[%s]' % ', '.join('1' if k == 'int' else 'true' for k in items); ty = '[%s; %d]' % (goml_ty(elem), m_)
+        src = 'fn main() -> unit { let t: %s = %s; () }\n' % (ty, lit)
+        d = tempfile.mkdtemp(prefix='vf-c04-')
+        try:
+            open(os.path.join(d, 'main.gom'), 'w').write(src)
+            pr = subprocess.run([build.compiler_bin(), 'run', '--dump-tast', os.path.join(d, 'main.gom')], capture_output=True, text=True, timeout=60)
+        finally: shutil.rmtree(d, ignore_errors=True)
+        return src.strip(), pr.stdout + pr.stderr
+    for p in res:
+        r.cases += 1
+        if p.kind != 'ok':
+            if any(f.key == 'panic:array-literal' for f in r.findings): continue
+            n, m_, items, elem = (p.notes or {}).get('case', (0, 0, [], 'TInt32'))
+            src, txt = replay(items, m_, elem)
+            r.findings.append(Finding('panic:array-literal', 'type checking the array literal [%s] against [%s; %d] panics: %s' % (', '.join(items), goml_ty(elem), m_, p.value[:120]), {'items': items, 'len': m_, 'elem': elem}, 'panicked' in txt, 'goml `%s`: %s' % (src, [l for l in txt.splitlines() if 'panicked' in l][:1] or txt[:120])))
+            continue
+        items, m_, elem, nd = p.value
+        want_ok = len(items) == m_ and all((k == 'int') == (elem == 'TInt32') for k in items)
+        r.nontrivial += 1
+        if (nd == 0) != want_ok and not any(f.key.startswith('array-literal') for f in r.findings):
+            src, txt = replay(items, m_, elem); rejected = 'error (' in txt or 'error:' in txt
+            r.findings.append(Finding('array-literal-ill-typed-accepted' if not want_ok else 'array-literal-well-typed-rejected', 'the array literal [%s] checked against [%s; %d]: %d diagnostics' % (', '.join(items), goml_ty(elem), m_, nd), {'items': items, 'len': m_, 'elem': elem}, rejected == want_ok, 'goml `%s`: %s' % (src, 'rejected' if rejected else 'accepted')))
+    r.samples = []
+
+_obs36 = obligations
+def obligations():
+    return _obs36() + [Ob('O3.7-array-literal-check', 'an array literal is accepted against an array type iff length and element types agree; never panics', ob_array_check, ('quick', 'thorough'), 3, {})]
+def ob_array_nopanic(r, tier, seed):
+    """O4.7: same exploration as O3.7; only the panic findings count under C04"""
+    ob_array_check(r, tier, seed)
+    r.findings = [f for f in r.findings if f.key.startswith('panic')]
+def obligations_c04():
+    return [Ob('O4.7-array-literal-nopanic', 'type checking array literals of 0..2 items never panics', ob_array_nopanic, ('quick', 'thorough'), 3, {})]
